@@ -215,8 +215,8 @@ func (d *Downstream) run() error {
 	eg, ctx := errgroup.WithContext(ctx)
 
 	eg.Go(func() error {
-		defer d.eventDispatcher.cond.Broadcast()
-		defer d.state.cond.Broadcast()
+		defer broadcastLocked(d.eventDispatcher.cond)
+		defer broadcastLocked(d.state.cond)
 		<-ctx.Done()
 		return nil
 	})
